@@ -291,6 +291,12 @@ package mcp
 //@   private[C07] responses writers close, sendRequestInternal
 //@   invariant self.responses != nil
 //@   invariant[C07 endpoint-latch-closed-only-after-the-flag-is-set] self.endpointChan != nil && (!self.endpointReceived ==> !closed(self.endpointChan))
+//@ type sseClientTransport
+//@   guarded[C07] responses by responsesMu
+//@   lockinv[C07 pending-channels-are-open-while-registered] responsesMu: forall k string :: (k in self.responses) ==> !closed(self.responses[k])
+//@ type stdioClientTransport
+//@   guarded[C07] pendingRequests by pendingMutex
+//@   lockinv[C07 pending-channels-are-open-while-registered] pendingMutex: forall k int64 :: (k in self.pendingRequests) ==> !closed(self.pendingRequests[k])
 //@ type stdioClientTransport
 //@   final[C07,C20] pendingRequests, notificationHandlers
 //@   invariant self.pendingRequests != nil && self.notificationHandlers != nil
@@ -300,6 +306,8 @@ package mcp
 //@   final[C07] capabilities
 //@   invariant self.capabilities != nil
 //@
+//@ func stdioClientTransport.close
+//@   loop 1 invariant[C07] forall k int64 :: (k in t.pendingRequests) ==> !closed(t.pendingRequests[k])
 //@ func stdioClientTransport.close$1
 //@   requires[C07] done != nil && !closed(done)
 //@ func sseClientTransport.close
